@@ -244,9 +244,26 @@ def rule_s7(F):
     return r
 
 
+def rule_s8(F):
+    """C16.M5 under C12's id: a script list shared by two threads calling one handle is only safe if storage writers have exclusive access."""
+    from . import c16
+    r = c16.rule_m5(F, rule_id="C12.S8")
+    return r
+
+
+def rule_s9(F):
+    """C16.M3 under C12's id (shape of the list's lock and what RawList's unsafe Send/Sync covers)."""
+    from . import c16
+    r = RuleResult("C12.S9", "RawList's unsafe Send/Sync covers only the owned buffer pointer; a list handle is Arc<Mutex<RawList>>", floor=5)
+    c16.rule_m3(F, r)
+    for v in r.violations:
+        v.rule = "C12.S9"
+    return r
+
+
 def rules(ctx):
     F = ctx["F"]
-    return [rule_s1(F), rule_s3(F), rule_s5(F), rule_s6(F), rule_s7(F)]
+    return [rule_s1(F), rule_s3(F), rule_s5(F), rule_s6(F), rule_s7(F), rule_s8(F), rule_s9(F)]
 
 
 def thorough_rules(ctx):
